@@ -14,30 +14,34 @@ from vlib.common import Violation, HarnessError, canon
 
 ID = "C14"
 MANIFEST = {
-    "technique": "history-based property-based testing (Hypothesis): generated command sequences over the whole builder alphabet, well-nested and ill-nested, against a Python model builder with the documented unification; snapshot immutability, twin-builder determinism and forced buffer growth; Form-driven LayoutBuilder against generated data",
-    "level_text": "Generated-input exploration of histories: a composite strategy that tracks the nesting stack draws sequences of <= 60 (quick) / <= 120 (thorough) commands over {null, boolean, integer, real, complex, datetime, timedelta, string, bytestring, beginlist/endlist, begintuple/index/endtuple, beginrecord(name)/field/endrecord, append, extend, snapshot, clear}, about one in eight with one ill-nested command (unbalanced end, field outside a record, index outside a tuple or out of range, value without index/field, slot filled twice, append out of bounds), with ArrayBuilderOptions initial in {1,2,3,8} x resize in {1.1,1.5,2.0} so that every buffer grows repeatedly. Each history runs on two builders (different options, C++ methods vs the exported awkward_ArrayBuilder_* C interface, *_check vs *_fast record calls). After every snapshot command: the decoded snapshot must equal, strictly (int is int, float is float, -0.0, NaN, str vs bytes, tuple vs list), what a pure-Python model accumulated under the documented unification; the snapshot must pass validityerror; both builders must give byte-identical descriptions; every earlier snapshot must still have exactly the description (all index and data buffers) it had when taken. Predicted errors must be raised; after a refusal at depth 0, clear() must restore a usable builder. LayoutBuilder: a generated type and data, the Form of its canonical layout, the typed command sequence, and the snapshot must equal the data. Held on everything generated outside the recorded known findings.",
-    "level_note": "Trusted: the /verif bridge (bridge/akb_builder.cpp) and akshim/builder.py, a re-statement of make_ArrayBuilder/make_LayoutBuilder/builder_fromiter of src/python/content.cpp which cannot be compiled here (the pybind11 glue itself is not decided); akmodel.core.decode as the reader of snapshots; akmodel/builder.py as my reading of the documented unification. The state of a builder after a refused command inside an open list/tuple/record, and clear() inside one, are not documented: only absence of crashes is required there. LayoutBuilder is explored for the Form classes and leaf types its sources accept (bool/int64/float64/complex128 leaves, ListOffset, Regular, Record, IndexedOption, Indexed, Unmasked, Union by tag, strings) with a data buffer of at least 16 bytes.",
+    "technique": "history-based property-based testing (Hypothesis): generated command sequences over the whole builder alphabet, well-nested and ill-nested, against a Python model builder with the documented unification; snapshot immutability, twin-builder determinism and forced buffer growth; generated Python data through ak.from_iter / ak.ArrayBuilder of the unmodified Python layer; Form-driven LayoutBuilder against generated data",
+    "level_text": "Generated-input exploration of histories (3/4 of the cases): a composite strategy that tracks the nesting stack draws sequences of <= 60 (quick) / <= 120 (thorough) commands over {null, boolean, integer, real, complex, datetime, timedelta, string, bytestring, beginlist/endlist, begintuple/index/endtuple, beginrecord(name)/field/endrecord, append, extend, snapshot, clear}, about one in eight with one ill-nested command (unbalanced end, field outside a record, index outside a tuple, index too large or negative, value without index/field, slot filled twice, append out of bounds; half of them placed inside an open tuple/record), with ArrayBuilderOptions initial in {1,2,3,8} x resize in {1.1,1.5,2.0} so that every buffer grows repeatedly. Each history runs on two builders (different options, C++ methods vs the exported awkward_ArrayBuilder_* C interface, *_check vs *_fast record calls). After every snapshot command: the snapshot must pass validityerror; decoded, it must equal strictly (int is int, float is float, -0.0, NaN, str vs bytes, tuple vs list) what a pure-Python model accumulated under the documented unification; both builders must give byte-identical descriptions; every earlier snapshot must still have exactly the description (all index and data buffers) it had when taken; len(builder) must be the number of completed items. Predicted errors must be raised; after a refusal at depth 0, clear() must restore a usable builder. Tier P (1/8): generated nested Python data (None, bool, int, float, complex, str, bytes, datetime64/timedelta64, lists, tuples, dicts) through ak.from_iter and, value by value, through the high-level ak.ArrayBuilder of /repo's own Python layer running on the akshim emulation of awkward._ext: both layouts and ak.to_list of both must equal the data under the same model, an intermediate snapshot must not change, from_iter and ArrayBuilder must give identical layouts. LayoutBuilder (1/8): a generated type and data, the Form of its canonical layout, the typed command sequence, and the snapshot must be valid and equal the data. Held on everything generated outside the two recorded LayoutBuilder findings; seven defects found by this check were repaired in /repo and are regression-tested by stored replays.",
+    "level_note": "Trusted: the /verif bridge (bridge/akb_builder.cpp) and akshim/builder.py, a re-statement of make_ArrayBuilder/make_LayoutBuilder/builder_fromiter of src/python/content.cpp which cannot be compiled here (the pybind11 glue itself is not decided; ak.from_iter therefore runs /repo's Python on the re-stated builder_fromiter); akmodel.core.decode as the reader of snapshots; akmodel/builder.py as my reading of the documented unification. clear() is taken to keep the type knowledge (ArrayBuilder.h): values appended before it still take part in the unification of what follows. The state of a builder after a refused command inside an open list/tuple/record, and clear() inside one, are not documented: only absence of crashes is required there. Arrays given to append/extend vary in type and in the class of their top node (the only thing the builder dispatches on); below the top node they use the canonical encoding, and when such an array has union type or floating-point leaves, numbers at the same position are compared numerically only (merging is Content::merge, property C08). A record without fields beside a by-reference union array is excluded (counted; known finding zero_field_records). LayoutBuilder: everything is demanded on the Forms of checks/c14.py lb_simple (leaves bool/int64/float64/string/bytestring; lists of lists of leaves; one option over a leaf; regular arrays of numbers; records/tuples of numbers; unions of numbers); other compositions and complex128 leaves are generated (3/10 of the LayoutBuilder cases) but fall under the two known findings, so the clause 'Form-driven LayoutBuilder reproduces the values' is decided only for the simple Forms; data buffers of at least 16 bytes.",
 }
 RULE = ("case = one whole history: builder options of two builders, call route (C++ / C interface, check / fast), up to two small generated arrays for append/extend, "
-        "and the command list (or, for kind 'lb', a generated type + data whose canonical Form drives a LayoutBuilder); "
-        "non-trivial = the history contains a type promotion at one position (int->real/complex, None -> option, incompatible -> union) or records whose fields arrive in different orders / different sets, "
+        "and the command list; or kind 'py': a list of generated Python values for ak.from_iter / ak.ArrayBuilder with the position of an intermediate snapshot; "
+        "or kind 'lb': a generated type + data whose canonical Form drives a LayoutBuilder. "
+        "non-trivial = the history/data contains a type promotion at one position (int->real/complex, None -> option, incompatible -> union) or records whose fields arrive in different orders / different sets, "
         "AND at least one snapshot that is followed by further value commands (for 'lb': non-empty data below the top level); distinct by hash of the case")
 ASSUMPTIONS = ["initial >= 1 and resize > 1 (documented preconditions of ArrayBuilderOptions)",
                "record names and field keys are non-empty strings; one history uses either the *_check or the *_fast record calls, never both (the fast calls compare names by address)",
                "index/field is always followed by a command that fills the slot (documented); an unfilled tuple slot is never generated",
                "after a refused command at nesting depth 0 nothing is assumed about the builder until clear(); after a refusal inside an open structure only 'no crash' is required",
+               "clear() removes the data and keeps the type knowledge (ArrayBuilder.h): earlier values still shape the unified type",
                "dict key order of records is not compared (the property does not speak about it)",
-               "LayoutBuilder: initial >= 16 bytes (set_data<complex128> writes 16 bytes into a buffer of `initial` bytes: see known finding); only int64/float64/bool/complex128 leaves (the only typed commands pybind exposes)"]
+               "arrays passed to append/extend are valid, have no zero-field records, and use the canonical encoding below their top node",
+               "LayoutBuilder: initial >= 16 bytes; only int64/float64/bool/complex128 leaves (the only typed commands pybind exposes)"]
 PLAN = {
     "quick": [{"flavour": "plain", "cases": 3200}, {"flavour": "san", "cases": 800}],
-    "thorough": [{"flavour": "plain", "cases": 150000}, {"flavour": "san", "cases": 50000}],
+    "thorough": [{"flavour": "plain", "cases": 96000}, {"flavour": "san", "cases": 24000}],
 }
-WALL_CAP = {"quick": 900, "thorough": 3300}
+WALL_CAP = {"quick": 900, "thorough": 2700}
 FORK_EACH = True
 MAX_STEPS = {"quick": 60, "thorough": 120}
-EXPLANATION = ("Each case is a complete command history executed on two ArrayBuilders; the oracle is akmodel/builder.py. "
-               "census keys: feat:* model features of the history, ill:* the ill-nested command used, op:* commands executed, "
-               "snapshots / mid_snapshot (taken inside an open structure), growth (a buffer outgrew `initial`).")
+EXPLANATION = ("Each 'ab' case is a complete command history executed on two ArrayBuilders; the oracle is akmodel/builder.py. "
+               "census keys: feat:* model features of the history (region:* = input regions of findings that were repaired in /repo), ill:* the ill-nested command used, "
+               "op:* commands executed, snapshots / mid_snapshot (taken inside an open structure), growth (a buffer outgrew `initial`), "
+               "py / pyfeat:* tier-P cases, lb / lb:<top node> LayoutBuilder cases.")
 
 ARR_CFG = gen.Cfg(max_depth=2, leaf_dtypes=("int64", "float64", "bool", "int32"), max_len=4, max_list=3, unknown=False, regular=True,
                   numpy_nd=False, nan=False, zero_field_records=False)      # (zero-field records: known finding zero_field_records of C02)
